@@ -3,8 +3,16 @@
    each with its source location), the environment is adversarial within the library's stated
    bounds: blocks one at a time, a broadcast transaction confirms at most MBC blocks after it
    became minable (its parent confirmed), the downstream peer C answers off chain at any height,
-   goes silent, or takes the HTLC on chain in any block up to the last one; the upstream peer A
-   answers at once or never (and then times the HTLC out on chain as soon as it can).
+   goes silent (after the commitment dance: "silent"; right after B's update_add_htlc +
+   commitment_signed, so that the HTLC exists only in the commitment B signed for C: "early"; holding
+   a dust HTLC: "dust"), or takes the HTLC on chain in any block up to the last one; the upstream
+   peer A answers at once or never (and then times the HTLC out on chain as soon as it can).
+   Beyond the stated bounds: with `starve` the miner confirms B's commitment transaction of the
+   downstream channel late or never (peers that never claim), and B's last resort -- the early
+   upstream fail-back at eu - LGP, CodeFailBackClosed -- has to keep the upstream channel alive.
+   B is restarted once (MRestart, at every height between the on-chain resolution of the downstream
+   HTLC and its burial; around the broadcast / the early fail-back when starved): what it fails back
+   at startup is CodeReadBuried.
 
    The constants come from the code at every run: a changed buffer is re-model-checked and a race
    that is now lost shows up as a violated invariant of Deadlines.tla. *)
@@ -26,6 +34,12 @@ CONSTANTS
   BigHops      \* eu - ed - Max(d, MIND) of those probes
 
 ASSUME ProbeDeltas \cap Deltas = {}
+
+VARIABLES
+  starve,  \* the miner starves B's commitment transaction of the downstream channel beyond MBC blocks
+           \* (outside the library's stated bounds: the only thing left to save is the upstream channel)
+  rsH      \* height at which B was restarted (-1: never)
+mcvars == <<vars, starve, rsH>>
 
 \* ------------------------------------------------------------ rules transcribed from the code
 \* (hh = best block height known to the node)
@@ -54,6 +68,10 @@ CodeHoldingCellTimeout(hh, Ed) == Ed <= hh + LGP
 \* channelmonitor.rs block_confirmed, "Fail back HTLCs on backwards channels if they expire within
 \* LATENCY_GRACE_PERIOD_BLOCKS blocks and the channel is closed"
 CodeFailBackClosed(hh, Eu) == ~(Eu > hh + LGP)
+\* channelmonitor.rs get_onchain_failed_outbound_htlcs (what ChannelManager::read fails back at startup):
+\* the funding spend has `event.height + ANTI_REORG_DELAY - 1 <= best_height`; an HTLC that has an output in
+\* the confirmed commitment must also be in htlcs_resolved_on_chain (its timeout reached the threshold)
+CodeReadBuried(hh, hc) == hc + ARD - 1 <= hh
 
 \* ------------------------------------------------------------ scenarios
 Scenario(r, um, dm) ==
@@ -64,11 +82,13 @@ Scenario(r, um, dm) ==
 Init ==
   /\ h = H0
   /\ role \in {"final", "fwd"} /\ upMode \in {"honest", "silent"}
-  /\ dnMode \in {"offchain", "silent", "early", "onchain", "cell"}
+  /\ dnMode \in {"offchain", "silent", "early", "dust", "onchain", "cell"}
   /\ Scenario(role, upMode, dnMode)
   /\ d \in Deltas \cup ProbeDeltas /\ (role = "final" => d = MIND)
   \* the other configured deltas: acceptance probes only (decided at once, C answers at once)
   /\ d \in ProbeDeltas => (role = "fwd" /\ upMode = "honest" /\ dnMode = "offchain")
+  /\ starve \in BOOLEAN /\ rsH = -1
+  /\ starve => (role = "fwd" /\ upMode = "honest" /\ dnMode \in {"silent", "early", "dust"} /\ d \in Deltas)
   /\ eu = 0 /\ ed = 0 /\ dl = 0 /\ up = "none" /\ upH = -1 /\ pre = FALSE /\ preLate = FALSE
   /\ dn = "none" /\ dnH = -1 /\ xH = -1 /\ cD = "open" /\ cDb = -1 /\ cDc = -1 /\ toB = -1
   /\ cU = "open" /\ cUb = -1 /\ cUc = -1 /\ suB = -1 /\ suC = -1 /\ lost = FALSE /\ viol = ""
@@ -77,10 +97,10 @@ Init ==
 \* never answers B's update_add_htlc ("early") needs no such thing
 CHolds == CodeFinalAccept(H0, ed)
 
-MOffer ==
+A_MOffer ==
   \/ role = "final" /\ \E o \in OffFinal : Offer(h + o, 0)
   \/ role = "fwd" /\ d \in Deltas /\ \E od \in OffFwdA \cup OffFwdB, s \in Slack1 :
-        /\ (dnMode \in {"silent", "onchain"} \/ upMode = "silent") => od \in OffFwdB
+        /\ (dnMode \in {"silent", "dust", "onchain"} \/ upMode = "silent" \/ starve) => od \in OffFwdB
         /\ Offer(h + od + d + s - 1, h + od)
   \/ role = "fwd" /\ dnMode = "offchain" /\ upMode = "honest" /\ d = MIND
         /\ \E f \in FarProbe : Offer(h + FAR + f, h + FAR + f - d)
@@ -94,15 +114,15 @@ MOffer ==
   \/ role = "fwd" /\ dnMode = "offchain" /\ upMode = "honest"
         /\ \E od \in OffSoon, b \in BigHops : Offer(h + od + Max(d, MIND) + b, h + od)
 
-MShow == role = "final" /\ up = "offered" /\ CodeFinalAccept(h, eu) /\ Show(CodeClaimDeadline(eu))
-MRefuseFinal == role = "final" /\ up = "offered" /\ ~CodeFinalAccept(h, eu) /\ FailUp
-MForward == role = "fwd" /\ up = "offered" /\ dn = "none" /\ dnMode # "cell" /\ CodeFwdAccept(h, eu, ed, d) /\ Forward(ed)
-MRefuseForward == role = "fwd" /\ up = "offered" /\ dn = "none" /\ ~CodeFwdAccept(h, eu, ed, d) /\ FailUp
+A_MShow == role = "final" /\ up = "offered" /\ CodeFinalAccept(h, eu) /\ Show(CodeClaimDeadline(eu))
+A_MRefuseFinal == role = "final" /\ up = "offered" /\ ~CodeFinalAccept(h, eu) /\ FailUp
+A_MForward == role = "fwd" /\ up = "offered" /\ dn = "none" /\ dnMode # "cell" /\ CodeFwdAccept(h, eu, ed, d) /\ Forward(ed)
+A_MRefuseForward == role = "fwd" /\ up = "offered" /\ dn = "none" /\ ~CodeFwdAccept(h, eu, ed, d) /\ FailUp
 \* the downstream peer owes B a revoke_and_ack: the accepted forward waits in the holding cell, is
 \* failed back when it gets too close to its expiry, and goes out when the peer finally answers
-MQueue == dnMode = "cell" /\ CodeFwdAccept(h, eu, ed, d) /\ Queue
+A_MQueue == dnMode = "cell" /\ CodeFwdAccept(h, eu, ed, d) /\ Queue
 EnCellTimeout == up = "offered" /\ dn = "cell" /\ CodeHoldingCellTimeout(h, ed)
-MCellTimeout == EnCellTimeout /\ FailUp
+A_MCellTimeout == EnCellTimeout /\ FailUp
 
 \* ---- what B does by itself when a block is connected / a message arrives (all immediate)
 EnAutoFail == role = "final" /\ up = "held" /\ ~pre /\ CodeAutoFail(h, eu)
@@ -113,34 +133,51 @@ EnFailBuried == role = "fwd" /\ up = "held" /\ ~pre /\ dn = "gone" /\ CodeBuried
 EnFailDn == role = "fwd" /\ up = "held" /\ dn = "failed"
 EnFailClosed == role = "fwd" /\ up = "held" /\ ~pre /\ cD # "open" /\ dn \in {"pending", "gone"}
                 /\ CodeFailBackClosed(h, eu)
-Urgent == (up = "offered" /\ dn # "cell") \/ EnCellTimeout \/ EnAutoFail \/ EnFulfilUp \/ EnGoDn \/ EnGoUp \/ EnFailBuried \/ EnFailDn \/ EnFailClosed
+\* no HTLC-timeout transaction for an HTLC that has no output in B's commitment transaction (never entered
+\* it: "early"; below the dust limit: "dust")
+NoOutput == dnMode \in {"early", "dust"}
+EnFailRead == /\ rsH = h /\ role = "fwd" /\ up = "held" /\ ~pre /\ dn = "gone" /\ cD = "conf"
+              /\ CodeReadBuried(h, cDc) /\ (NoOutput \/ CodeBuried(h, dnH))
+Urgent == (up = "offered" /\ dn # "cell") \/ EnCellTimeout \/ EnAutoFail \/ EnFulfilUp \/ EnGoDn \/ EnGoUp \/ EnFailBuried \/ EnFailDn \/ EnFailClosed \/ EnFailRead
 
-MAutoFail == EnAutoFail /\ FailUp
-MFulfilUp == EnFulfilUp /\ FulfilUp
-MGoOnChainDn == EnGoDn /\ GoOnChainDn(dnMode # "early")
-MGoOnChainUp == EnGoUp /\ GoOnChainUp(TRUE)
-MFailUpBuried == EnFailBuried /\ FailUp
-MFailUpDn == EnFailDn /\ FailUp
-MFailUpClosed == EnFailClosed /\ ~EnFailBuried /\ FailUp
+A_MAutoFail == EnAutoFail /\ FailUp
+A_MFulfilUp == EnFulfilUp /\ FulfilUp
+A_MGoOnChainDn == EnGoDn /\ GoOnChainDn(~NoOutput)
+A_MGoOnChainUp == EnGoUp /\ GoOnChainUp(TRUE)
+A_MFailUpBuried == EnFailBuried /\ FailUp
+A_MFailUpDn == EnFailDn /\ FailUp
+A_MFailUpClosed == EnFailClosed /\ ~EnFailBuried /\ FailUp
+\* what the restarted node fails back at startup (ChannelManager::read)
+A_MFailUpRead == EnFailRead /\ FailUp
 
 \* ---- the user, the peers, the chain (only between B's reactions)
 \* claim_funds works as long as the payment has not been failed back
-MClaim == ~Urgent /\ role = "final" /\ up = "held" /\ ~pre /\ Claim(TRUE)
-MClaimLate == ~Urgent /\ role = "final" /\ up = "failed" /\ dl > 0 /\ ~pre /\ xH = -1 /\ h <= dl + 1 /\ Claim(FALSE)
+A_MClaim == ~Urgent /\ role = "final" /\ up = "held" /\ ~pre /\ Claim(TRUE)
+A_MClaimLate == ~Urgent /\ role = "final" /\ up = "failed" /\ dl > 0 /\ ~pre /\ xH = -1 /\ h <= dl + 1 /\ Claim(FALSE)
 
-MCellRelease == ~Urgent /\ dn = "cell" /\ Forward(ed)
-MCellReleaseLate == ~Urgent /\ dnMode = "cell" /\ up = "failed" /\ dn = "cell" /\ xH = -1 /\ h <= ed /\ Probe
+A_MCellRelease == ~Urgent /\ dn = "cell" /\ Forward(ed)
+A_MCellReleaseLate == ~Urgent /\ dnMode = "cell" /\ up = "failed" /\ dn = "cell" /\ xH = -1 /\ h <= ed /\ Probe
 
 LastMoment == h = H0 \/ h >= ed + LGP - 2
 CHoldsNow == CodeFinalAccept(h, ed)
-MDnFulfilCell == ~Urgent /\ dnMode = "cell" /\ CHoldsNow /\ DnFulfil
-MDnFailCell == ~Urgent /\ dnMode = "cell" /\ ~CHoldsNow /\ DnFail
-MDnFulfil == ~Urgent /\ dnMode = "offchain" /\ CHolds /\ (upMode = "honest" \/ LastMoment) /\ DnFulfil
-MDnFail == ~Urgent /\ dnMode = "offchain" /\ (CHolds \/ h = H0) /\ upMode = "honest" /\ DnFail
+A_MDnFulfilCell == ~Urgent /\ dnMode = "cell" /\ CHoldsNow /\ DnFulfil
+A_MDnFailCell == ~Urgent /\ dnMode = "cell" /\ ~CHoldsNow /\ DnFail
+A_MDnFulfil == ~Urgent /\ dnMode = "offchain" /\ CHolds /\ (upMode = "honest" \/ LastMoment) /\ DnFulfil
+A_MDnFail == ~Urgent /\ dnMode = "offchain" /\ (CHolds \/ h = H0) /\ upMode = "honest" /\ DnFail
 \* an honest C that does not hold the HTLC fails it at once
 \* far-far-away probes and probes with another configured delta: only the acceptance matters
 Remote == ed - H0 > 4 * MIND \/ d \in ProbeDeltas
 CMustAnswer == dnMode = "offchain" /\ dn = "pending" /\ (~CHolds \/ Remote) /\ h = H0
+
+\* B is stopped and restarted (once) while the downstream HTLC's fate is on chain but not yet buried, or
+\* while its starved commitment transaction is still unconfirmed
+MRestart ==
+  /\ ~Urgent /\ rsH = -1 /\ role = "fwd" /\ upMode = "honest" /\ up = "held" /\ ~pre
+  /\ dnMode \in {"silent", "early", "dust"}
+  \* (in the starved case: right after the broadcast, and in the last blocks before the early fail-back)
+  /\ (cD = "conf" /\ dn = "gone") \/ (starve /\ cD = "bcast" /\ (h <= cDb + 1 \/ h + LGP + 2 >= eu))
+  /\ rsH' = h /\ UNCHANGED starve
+  /\ Restart
 
 Finished == /\ up \in {"fulfilled", "failed"} /\ (Settled \/ lost \/ suC = -2) /\ dn # "pending"
             \* a few more blocks after a holding-cell timeout, for the peer's late answer
@@ -148,17 +185,21 @@ Finished == /\ up \in {"fulfilled", "failed"} /\ (Settled \/ lost \/ suC = -2) /
             \* one more block after an automatic fail-back, for a claim attempt past the deadline
             /\ ~(role = "final" /\ up = "failed" /\ dl > 0 /\ xH = -1 /\ h <= dl)
 
-MNewBlock ==
+A_MNewBlock ==
   /\ ~Urgent /\ ~CMustAnswer /\ ~Finished /\ up # "none"
   /\ ~(dnMode = "cell" /\ dn = "pending")            \* after the release C answers at once
   /\ ~(dnMode = "cell" /\ up = "failed" /\ h >= ed)
-  /\ \E cf \in SUBSET {"commitD", "timeoutD", "claimD", "commitU", "successU", "timeoutU"} :
+  /\ \E cf0 \in SUBSET {"commitD", "timeoutD", "claimD", "commitU", "successU", "timeoutU"} :
        LET n == h + 1
+           cf == cf0 \cup (IF "commitD" \in cf0 /\ NoOutput THEN {"noHtlcD"} ELSE {})
            rT2 == Max(toB, cDc)
            rT5 == Max(suB, cUc)
        IN
        \* what can be mined
        /\ "commitD" \in cf => cD = "bcast"
+       \* a starved commitment transaction confirms late (when its burial no longer beats the early
+       \* fail-back at eu - LGP) or never
+       /\ ("commitD" \in cf /\ starve) => n + ARD > eu - LGP
        /\ "timeoutD" \in cf => (toB >= 0 /\ cD = "conf" /\ dn = "pending" /\ n > ed)
        /\ "claimD" \in cf => (dnMode = "onchain" /\ cD = "conf" /\ dn = "pending")
        /\ ~("timeoutD" \in cf /\ "claimD" \in cf)
@@ -167,19 +208,49 @@ MNewBlock ==
        /\ "timeoutU" \in cf => (upMode = "silent" /\ cU = "conf" /\ suC = -1 /\ n > eu)
        /\ ~("successU" \in cf /\ "timeoutU" \in cf)
        \* what must be mined by now: an honest transaction waits at most MBC blocks
-       /\ (cD = "bcast" /\ n >= cDb + MBC) => "commitD" \in cf
+       /\ (cD = "bcast" /\ n >= cDb + MBC /\ ~starve) => "commitD" \in cf
        /\ (toB >= 0 /\ cD = "conf" /\ dn = "pending" /\ n >= rT2 + MBC) => ("timeoutD" \in cf \/ "claimD" \in cf)
        /\ (cU = "bcast" /\ n >= cUb + MBC) => "commitU" \in cf
        /\ (suB >= 0 /\ cU = "conf" /\ suC = -1 /\ n >= rT5 + MBC) => ("successU" \in cf \/ "timeoutU" \in cf)
        /\ Block(cf)
 
-Next ==
+\* the actions of Next: the steps above leave the scenario parameters of this module alone
+K == UNCHANGED <<starve, rsH>>
+MOffer == A_MOffer /\ K
+MShow == A_MShow /\ K
+MRefuseFinal == A_MRefuseFinal /\ K
+MForward == A_MForward /\ K
+MRefuseForward == A_MRefuseForward /\ K
+MAutoFail == A_MAutoFail /\ K
+MFulfilUp == A_MFulfilUp /\ K
+MGoOnChainDn == A_MGoOnChainDn /\ K
+MGoOnChainUp == A_MGoOnChainUp /\ K
+MFailUpBuried == A_MFailUpBuried /\ K
+MFailUpDn == A_MFailUpDn /\ K
+MFailUpClosed == A_MFailUpClosed /\ K
+MFailUpRead == A_MFailUpRead /\ K
+MQueue == A_MQueue /\ K
+MCellTimeout == A_MCellTimeout /\ K
+MCellRelease == A_MCellRelease /\ K
+MCellReleaseLate == A_MCellReleaseLate /\ K
+MDnFulfilCell == A_MDnFulfilCell /\ K
+MDnFailCell == A_MDnFailCell /\ K
+MClaim == A_MClaim /\ K
+MClaimLate == A_MClaimLate /\ K
+MDnFulfil == A_MDnFulfil /\ K
+MDnFail == A_MDnFail /\ K
+MNewBlock == A_MNewBlock /\ K
+
+NextB ==
   \/ MOffer \/ MShow \/ MRefuseFinal \/ MForward \/ MRefuseForward
   \/ MAutoFail \/ MFulfilUp \/ MGoOnChainDn \/ MGoOnChainUp \/ MFailUpBuried \/ MFailUpDn \/ MFailUpClosed
+  \/ MFailUpRead
   \/ MQueue \/ MCellTimeout \/ MCellRelease \/ MCellReleaseLate \/ MDnFulfilCell \/ MDnFailCell
   \/ MClaim \/ MClaimLate \/ MDnFulfil \/ MDnFail \/ MNewBlock
 
-Spec == Init /\ [][Next]_vars
+Next == MRestart \/ NextB
+
+Spec == Init /\ [][Next]_mcvars
 
 Horizon == up = "none" \/ h <= eu + LGP + 2
 
@@ -190,5 +261,6 @@ EmitScripts ==
     PrintT(<<"SCRIPT", ToJson([role |-> role, up |-> upMode, dn |-> dnMode, offu |-> eu - H0, offd |-> ed - H0,
                                d |-> d, dl |-> dl, x |-> xH, dnres |-> dn, upres |-> up,
                                c1d |-> cDc - cDb, c2d |-> dnH - Max(toB, cDc), cdconf |-> cDc,
-                               c1u |-> cUc - cUb, c2u |-> suC - Max(suB, cUc), cuconf |-> cUc])>>)
+                               c1u |-> cUc - cUb, c2u |-> suC - Max(suB, cUc), cuconf |-> cUc,
+                               starve |-> starve, rsh |-> rsH, cdb |-> cDb, dnh |-> dnH, uph |-> upH])>>)
 =============================================================================
